@@ -235,3 +235,32 @@ func vInitialFontWeight() (int, []string) {
 //@   ensures[q] conv && value.Unit == pr.Q ==> result.Value * 101.6 == value.Value * 96 && result.Unit == u && result.S == ""
 //@   ensures[em] conv && value.Unit == pr.Em && fontSize >= 0 ==> result.Value == value.Value * fontSize && result.Unit == u && result.S == ""
 //@   ensures[percentage] conv && value.Unit == pr.Perc ==> result == value
+
+// the computed font size of a style is a function of the style object (computed lazily, then cached)
+//@ func (*ComputedStyle).GetFontSize
+//@   props C04
+//@   pure refs
+
+// line-height (CSS 2.1 §10.8.1): normal and <number> are kept (the number is inherited as such),
+// a percentage computes to that percentage of the element's own computed font size, in px — it is
+// the LENGTH that is inherited — and a length is made absolute.
+//@ func lineHeight
+//@   props C04
+//@   requires computer != nil && typeIs(_value, pr.DimOrS)
+//@   modifies anything
+//@   let v = _value.(pr.DimOrS)
+//@   let r = result.(pr.DimOrS)
+//@   ensures typeIs(result, pr.DimOrS)
+//@   ensures[normal] v.S == "normal" ==> r == v
+//@   ensures[number] v.S != "normal" && v.Unit == pr.Scalar ==> r == v
+//@   ensures[percentage] v.S != "normal" && v.Unit == pr.Perc ==> r.S == "" && r.Unit == pr.Px && r.Value == v.Value / 100 * old(computer.GetFontSize().Value)
+//@   ensures[length] v.S != "normal" && v.Unit != pr.Scalar && v.Unit != pr.Perc ==> r.S == "" && r.Unit == pr.Px
+
+// font-size: a percentage refers to the parent's computed font size (the initial value on the
+// root element); other lengths are made absolute against it as well (em, ex...), in px.
+//@ func fontSize
+//@   props C04
+//@   requires computer != nil && typeIs(_value, pr.DimOrS)
+//@   modifies anything
+//@   return 6 ensures[percentage] typeIs(result, pr.DimOrS) && result.(pr.DimOrS).S == "" && result.(pr.DimOrS).Value == _value.(pr.DimOrS).Value * parentFontSize / 100
+//@   call length_#1 assert arg0 == computer && arg1 == _value.(pr.DimOrS) && arg2 == parentFontSize && arg3
